@@ -263,6 +263,9 @@ func (g *gen) layer(server bool) LayerSpec {
 	case x < 0.3 && !server:
 		l.Mode = 3
 	}
+	if !server && g.p(0.25) {
+		l.Foreign = true
+	}
 	return l
 }
 
@@ -333,6 +336,28 @@ func oracleC16(s *Sim) {
 	for _, v := range s.views() {
 		r := v.r
 		unary := r.Kind == KUnary
+		// what each interceptor passes onward (a context derived from the one
+		// it was given) is what the next one, and finally the handler, gets
+		var entered []string
+		for _, ev := range v.ev {
+			if ev.Side != 'h' {
+				continue
+			}
+			if ev.Op == "int-enter" || ev.Op == "hstart" {
+				want := strings.Join(entered, ",")
+				if got := ev.Flags["sees"]; got != want {
+					who := "the handler"
+					if ev.Op == "int-enter" {
+						who = "interceptor " + ev.Note
+					}
+					v.fail("C16", "onward-context-lost|"+ev.Op, "%s was given a context carrying the marks [%s] of the interceptors before it; expected [%s] (what each interceptor passes onward must reach the next)", who, got, want)
+					break
+				}
+				if ev.Op == "int-enter" {
+					entered = append(entered, ev.Note)
+				}
+			}
+		}
 		// expected chain, outermost first
 		type lay struct {
 			name string
